@@ -515,8 +515,39 @@ func c07Exec(c vmCase, x *pbt.Ctx) error {
 		x.Class("trace-too-large-to-attribute")
 		return nil
 	}
+	// known finding (checkpredicate-refunds-unpaid-child-stack): the reference model says which
+	// CHECKPREDICATE children ran out of gas while settling the deferred cost of items already pushed;
+	// the parent refunds those items although nobody paid for them.  Only a run whose trace the
+	// reference reproduces is matched.
+	unpaidChild := false
+	// (second attempt: the model of what the implementation does with expansion opcodes in a child
+	// frame, C08's known finding, so that a run that goes down that path can still be matched)
+	for _, childResets := range []bool{false, true} {
+		if unpaidChild || os.Getenv("VERIF_C07_NOKNOWN") != "" {
+			break
+		}
+		refEarly, _ := runRef(&c, refvm.Options{MaxWork: 4000000, ChildResetsExpansion: childResets})
+		if refEarly.Truncated {
+			continue
+		}
+		exp := renderRef(refEarly)
+		same := len(o.trace) >= len(exp)
+		for i := 0; same && i < len(exp); i++ {
+			same = exp[i] == o.trace[i]
+		}
+		if same {
+			for _, st := range refEarly.Steps {
+				unpaidChild = unpaidChild || st.ChildUnpaid
+			}
+		}
+	}
 	// (b)
 	if o.gasLeft < 0 || o.gasLeft > c.Gas {
+		if unpaidChild && o.gasLeft > c.Gas {
+			x.Known("checkpredicate-refunds-unpaid-child-stack")
+			x.Class("known:unpaid-child-stack")
+			return nil
+		}
 		return fail("gasLeft %d outside [0, %d]", o.gasLeft, c.Gas)
 	}
 	if o.err == nil {
@@ -535,6 +566,15 @@ func c07Exec(c vmCase, x *pbt.Ctx) error {
 		return fail("HARNESS: cannot attribute the trace: %v", j.structural)
 	}
 	if len(j.violations) > 0 {
+		onlyCP := true
+		for _, v := range j.violations {
+			onlyCP = onlyCP && strings.HasPrefix(v, "instruction CHECKPREDICATE ")
+		}
+		if unpaidChild && onlyCP {
+			x.Known("checkpredicate-refunds-unpaid-child-stack")
+			x.Class("known:unpaid-child-stack")
+			return nil
+		}
 		return fail("%s", strings.Join(j.violations, "\n"))
 	}
 	if finalOK && int64(j.judged-j.knownFree)+o.gasLeft > c.Gas {
